@@ -408,7 +408,7 @@ def unesc(s):
 
 class Proc:
     __slots__ = ("conn", "buf", "pid", "ppid", "inv", "role", "state", "req", "nev", "kcount", "parent", "live_children", "dead_unreaped",
-                 "exit_event", "injected_end", "events", "pending_children", "label")
+                 "exit_event", "injected_end", "events", "pending_children", "label", "execd", "exec_failed")
 
     def __init__(self, conn):
         self.conn = conn
@@ -427,6 +427,8 @@ class Proc:
         self.injected_end = None
         self.events = []
         self.label = "?"
+        self.execd = False
+        self.exec_failed = False
 
 
 class Machine:
@@ -550,6 +552,7 @@ class Machine:
                 p.nev = 0
                 p.kcount = {}
                 p.exit_event = None
+                p.execd = True
             self.by_pid[p.pid] = p
         elif w[0] == "REQ":
             p.req = (w[1], [unesc(x) for x in w[2:]])
@@ -577,6 +580,8 @@ class Machine:
                 self.inv_state[p.inv]["fired"].append((p.label, " ".join(w[2:])))
             if w[1] == "mkstemp" and int(w[2]) >= 0:
                 self.inv_state[p.inv]["temps"].append(unesc(w[3]))
+            if w[1] == "execvp" and int(w[2]) < 0:
+                p.exec_failed = True
             if w[1] == "wait" and int(w[2]) > 0:
                 p.dead_unreaped -= 1
                 self.inv_state[p.inv]["waits"].append((int(w[2]), int(w[3])))
@@ -608,6 +613,10 @@ class Machine:
             return False
         if p.req[0] == "wait":
             return p.dead_unreaped > 0 or p.live_children == 0
+        if p.req[0] == "spawnwait":
+            # posix_spawn emulation: the parent may go on once its child has exec'ed, failed to exec, or died
+            c = self.by_pid.get(int(p.req[1][0]))
+            return c is not None and (c.state == "dead" or c.execd or c.exec_failed)
         return True
 
     # ---------- faults
@@ -639,6 +648,9 @@ class Machine:
         st = self.inv_state[p.inv]
         reply = "GO"
         detail = " ".join(self.canon(a) for a in (args[1:] if kind == "start" else args))[:300]
+        if kind == "spawnwait":   # real pids never enter the canonical log
+            c = self.by_pid.get(int(args[0]))
+            detail = c.label if c else "?"
         fi, f = self.fault_for(p, ekind)
         if f:
             act = f["act"]
@@ -690,7 +702,7 @@ class Machine:
     def canon(self, s):
         # make logs independent of the sandbox location and of the worker that ran them
         s = s.replace(self.cwd, "$CWD").replace(self.env["sdir"], "$S")
-        return re.sub(r"/tmp/chibicc-%s(\d{4})" % self.env["wid"], r"/tmp/chibicc-T\1", s)
+        return re.sub(r"chibicc-%s(\d{4})" % self.env["wid"], r"chibicc-T\1", s)
 
     def canon_stderr(self, i, s):
         # temporaries are numbered per scenario; name them per invocation so that an invocation's
